@@ -6,7 +6,7 @@
    why size and time stay polynomial in depth).                                                  *)
 EXTENDS Integers, Sequences, TLC, Json
 Log == ndJsonDeserialize("trace.ndjson")
-LimitMs == 10000      \* "within seconds": single digits, with room for a loaded machine
+LimitMs == 5000       \* "within seconds": low single digits; the slowest call of the current tree is under 1 s on this machine, also under load
 FewKilobytes == 8192  \* the promptness promise is about documents of a few kilobytes; larger ones must still return (watchdog)
 VARIABLES l, bad
 vars == <<l, bad>>
